@@ -448,7 +448,8 @@ class Facts:
                 for tg in self.local_targets(t):
                     still_called.add(tg)
         gone = {g for g in gone if g not in still_called}
-        v.fns = [repl.get(f.path, f) for f in self.fns if f.path not in gone and not any(f.path.startswith(g + "::{closure") for g in gone)]
+        # (closures written inside an inlined helper stay: the inlined body still builds and passes them around)
+        v.fns = [repl.get(f.path, f) for f in self.fns if f.path not in gone]
         v.removed_helpers = sorted(gone)
         v.by_path = {f.path: f for f in v.fns}
         v._cg = None
